@@ -450,11 +450,12 @@ def decide(prop, tier, seed, cfg, scratch, index, spec_dir, contracts_dir, evide
     for f_ in sorted(files_of_prop):
         if f_ in inv_base:
             try:
-                now = engine.item_inventory(os.path.join(engine.REPO, f_))
+                # the set of impls that hold units is the one recorded with the baseline (all configurations together)
+                now = engine.item_inventory(os.path.join(engine.REPO, f_), inv_base[f_]['contracted'])
             except Exception:
                 continue
-            added = [x for x in now if x not in inv_base[f_]]
-            removed = [x for x in inv_base[f_] if x not in now]
+            added = [x for x in now if x not in inv_base[f_]['items']]
+            removed = [x for x in inv_base[f_]['items'] if x not in now]
             if added or removed:
                 inventory_changed.append('%s: %s' % (f_, '; '.join(['+ ' + x[:120] for x in added[:4]] + ['- ' + x[:120] for x in removed[:4]])))
     # OS-request frame (C14 / C19): a unit that now issues other kinds / numbers of OS requests than recorded is undecided
